@@ -246,10 +246,8 @@ func replayC21(ctx context.Context, raw []byte) (string, error) {
 func replayC37(ctx context.Context, raw []byte) (string, error) {
 	var file struct {
 		Replay struct {
-			History  History `json:"history"`
-			Template struct {
-				ID string
-			} `json:"template"`
+			History       History                 `json:"history"`
+			Template      string                  `json:"template"`
 			Vars          map[string]any          `json:"vars"`
 			RequestParams json.RawMessage         `json:"requestParams"`
 			Config        common.PaginationConfig `json:"paginationConfig"`
@@ -261,12 +259,12 @@ func replayC37(ctx context.Context, raw []byte) (string, error) {
 	rp := file.Replay
 	var t *tpl
 	for _, x := range templates() {
-		if x.ID == rp.Template.ID {
+		if x.ID == rp.Template {
 			t = x
 		}
 	}
 	if t == nil {
-		return "", fmt.Errorf("unknown template %q", rp.Template.ID)
+		return "", fmt.Errorf("unknown template %q", rp.Template)
 	}
 	s, err := rebuild(ctx, &rp.History)
 	if err != nil {
